@@ -135,6 +135,8 @@ def main(tier, seed, replay=None):
                       'through handle 0, queries (has/get/bulk/meta/list/count/total) through any handle at any point; 70 fixed histories placing a '
                       'snapshot-pinning query before another handle packs and cleans, plus random ones; distinct by operation sequence')
     ck.coq()
+    import tracecheck
+    tracecheck.check_traces(ck, ck.pid, names=['add', 'pack', 'pack_clean', 'clean', 'pack_then_clean'])
     rnd = ck.rng
     cases = fixed_cases() + [gen(rnd, rnd.randint(8, 25)) for _ in range(300 if tier == 'quick' else 6000)]
     with mp.get_context('fork').Pool(min(common.NPROC, 14)) as pool:
